@@ -428,8 +428,14 @@ CHECKS = {
                        "proof, proof for another code, replay of a proof captured on another TLS session with the same code, reflection, "
                        "reflection with rewritten role byte, wrong version, role swap, short, long, silence, zero MAC), and a relay "
                        "between two TLS sessions whose honest ends hold the same code (verbatim, nonce or role rewritten): the honest "
-                       "side(s) must return an error."),
-        "level_note": "Assumes HMAC-SHA256 and the TLS exporter are sound; the attacker family is finite and generated. The application-level clause (no manifest byte before authentication on primary and extra connections) is not decided here - see DESIGN.md.",
+                       "side(s) must return an error. Extra connections (unit 'extra'): the host's real dialExtraConns and the receiver's real "
+                       "acceptExtraConns are run against each other (1-4 connections, same or different code: all or none accepted, and a "
+                       "nonce sent through every returned connection must arrive on a returned connection of the peer) and against peers "
+                       "without the code: a rogue dialer after 0-3 genuine connections, a rogue listener the sender is pointed at, and a "
+                       "relay that terminates the sender's TLS session and opens its own to the receiver (messages relayed verbatim); no "
+                       "such connection may appear in a returned list, and the failing peer receives nothing beyond the 50-byte "
+                       "authentication message."),
+        "level_note": "Assumes HMAC-SHA256 and the TLS exporter are sound; the attacker family is finite and generated. For the primary connection the clause 'no manifest byte before authentication' is wiring inside runICEQUICTransfer/runTransfer and is not exercised (see DESIGN.md 8.6); for extra connections it is checked at the two functions that add them.",
         "technique": "exhaustive single-bit/truncation mutation of the handshake messages + generated attacker strategies (rapid) against the real handshake over real QUIC/TLS sessions",
         "rule": ("case = code pair | alteration (message, bit or cut) | (attacker position, strategy, honest code); non-trivial = the honest "
                  "side got a well-formed message and had to decide by MAC/role/version (all alteration and attacker cases) or a code pair; "
